@@ -233,3 +233,19 @@ def poison(S, sp):
     else:
         sp[where] = list(sp[where]) + [[val, 1]]
     return sp, where, val
+
+
+def gen_order(S, sp):
+    """A storage order for the interval list and the residue-mod dict of an annotation built through
+    create_annotation: any order is a valid input (add_intervals / add_internal_mod in any order, reverse() leaves
+    intervals descending). Returns None (ascending) half of the time."""
+    if S.coin(0.5):
+        return None
+    order = {}
+    if len(sp['intervals']) >= 2:
+        idx = list(range(len(sp['intervals'])))
+        order['intervals'] = list(reversed(idx)) if S.coin(0.6) else S.shuffled(idx)
+    if len(sp['internal']) >= 2:
+        keys = sorted(sp['internal'], key=int)
+        order['internal'] = list(reversed(keys)) if S.coin(0.5) else S.shuffled(keys)
+    return order or None
